@@ -217,6 +217,12 @@ def run(scn):
 def _run(scn, root):
     t = cs.run_world(scn, root=root)
     viol = judge(t)
+    if t.second is not None:
+        for v in judge(t.second):
+            v['key'] += '|second-call'
+            v['facts']['call'] = 2
+            v['message'] = 'second compile() on the same compiler: ' + v['message']
+            viol.append(v)
     out = cs.outcome(t, viol, nontrivial=True if scn.get('planned_failure') else None, extra_sig=[scn.get('stage'), len(scn.get('modules', {}))])
     return out
 
